@@ -46,7 +46,7 @@ EXPLANATION = (
     'literal ghost model on a 3-rank world. '
     'NOT proved, tied by the streams only: that the alltoall/alltoallv exchanges of ghost hand every rank the '
     '(global, owner values) pairs of its ghosts (full ghostRefresh_spec); the post-condition of ref_migrate_shufflin '
-    '(no shufflinSpec theorem), the parallel reader placement, preservation of the id invariant by the local '
+    '(no shufflinSpec theorem; the parallel reader placement IS proved, see the end), preservation of the id invariant by the local '
     'operations (IdInv_step) and the reachability lift. '
     'Tie: stream dist_fn runs the same op line (the id states / vertex tables of all ranks) through the real '
     'ref_node_synchronize_globals, ref_node_eliminate_unused_offset, ref_node_eliminate_active_parts, ref_cell_part, '
@@ -61,7 +61,17 @@ EXPLANATION = (
     'dumps its vertices (global, part, payload bits) and cells, refdrv evaluates distInv on the gathered state, and at '
     'every ref_node_synchronize_globals the model is re-run on the real pre-state (global[], sorted arrays, unused '
     'list) and compared with the real post-state. Independently the python oracles state the bijection and the C06 '
-    'sentence directly on the implementation\'s lines.')
+    'sentence directly on the implementation\'s lines. '
+    'PARALLEL READ (work package partmeshb; Refine/Model/PartMeshb.lean, Props/C06Part.lean): readPartition_spec is now '
+    'PROVED - for every np >= 1, chunk constant and accepted file with 1 <= nnode < 2^31 whose cell groups have no two '
+    'cells on the same vertex set, the model of ref_part_by_extension (vertex blocks by ref_part_first, per-chunk routing '
+    'by the implicit owner of the FIRST vertex, ref_cell_add_many_global, ref_migrate_shufflin_cell, ref_geom_ghost, '
+    'ref_node_ghost_real) succeeds and its world satisfies distInv, all seven clauses; partCell_routing_complete gives '
+    'the closed form (rank r holds, in this order, the cells routed to it and then by source rank the cells routed '
+    'elsewhere that touch it; hence cell on r <=> some vertex of it is owned by r).  Tie: streams partmeshb_read '
+    '(np 1..5) and partmeshb_chunk (more records than the 1000000-record read chunk, np 2,3 / 4,5 thorough): the '
+    'per-rank dump (vertices sorted, cells in LOCAL order, geometry, CAD) taken just before the orientation pass == '
+    'the model line; python oracle: the C06 sentence on the dump.')
 ASSUMPTIONS = [
     'sync_bijection is proved under the explicit hypothesis SyncInv (common old_n_global >= 0 with new_n_global >= '
     'old_n_global on every rank, sorted_global non-decreasing and consistent with global[] as ref_node maintains it, '
@@ -69,8 +79,10 @@ ASSUMPTIONS = [
     '[0, old+sum k) and disjoint from the shifted live ids, every id below old+sum k live somewhere or unused)',
     'the id invariant itself (maintained by ref_node_next_global / ref_node_remove during split/collapse/cavity) is '
     'not proved preserved here; the run-level oracle checks it on every real pre-state of ref_node_synchronize_globals',
-    'the exchanges of the ghost refresh, ref_migrate_shufflin, the parallel reader placement and the history lift '
-    'have no theorem: their post-conditions are checked on dumps of real runs (distInv in Lean, the same sentence in '
+    'the exchanges of the ghost refresh, ref_migrate_shufflin (general case) and the history lift '
+    'have no theorem (the parallel reader placement has: Props/C06Part.lean, where ref_mpi_alltoallv is used through '
+    'its C17 post-condition - a rank receives the blocks addressed to it in source-rank order - and the hypothesis '
+    '"no two cells of a group on the same vertex set" is necessary: ref_cell_add_many_global drops the second one): their post-conditions are checked on dumps of real runs (distInv in Lean, the same sentence in '
     'python) and, for ghost, by the function-level diff',
     'MPI semantics is trusted as specified in Refine.Model.Comm (C17): allgather, allgatherv, alltoall, alltoallv',
     'integer width: ids and counts are unbounded Int/Nat in the model ((REF_INT) casts of counts, REF_GLOB ids are '
